@@ -446,8 +446,10 @@ func (w *cacheWorld) recorded(h *recorder, g int, op string, r *rand.Rand, known
 }
 
 // RecordEpisode runs ng goroutines with perG operations each on a fresh cache,
-// then the quiescent post-condition reads, and returns the history.
-func RecordEpisode(seed int64, ng, perG int, yield bool) Episode {
+// then the quiescent post-condition reads, and returns the history. With a
+// focus pair, odd goroutines mostly run focus.A and even ones focus.B (the
+// conflicting operations of the lock model), otherwise a random mix.
+func RecordEpisode(seed int64, ng, perG int, yield bool, focus *Pair) Episode {
 	ids := []string{"a", "b"}
 	w := newWorld(ids)
 	h := &recorder{per: make([][]Event, ng)}
@@ -456,27 +458,36 @@ func RecordEpisode(seed int64, ng, perG int, yield bool) Episode {
 	mix := []string{"Store", "Store", "Store", "Lookup", "Lookup", "LookupNE", "LookupCmd", "LookupCmd", "MapCmd", "MapCmd",
 		"Invalidate", "Invalidate", "Sweep", "Sweep", "Dump", "Size", "Renew", "Renew", "IsExpired", "Clear"}
 	var wg sync.WaitGroup
-	start := make(chan struct{})
+	var ready int32
 	for g := 1; g <= ng; g++ {
 		wg.Add(1)
 		go func(g int) {
 			defer wg.Done()
 			r := rand.New(rand.NewSource(seed*7919 + int64(g)))
 			var known []*security.SessionEntry
-			<-start
+			// barrier: all goroutines start within about a microsecond of each other
+			atomic.AddInt32(&ready, 1)
+			for atomic.LoadInt32(&ready) < int32(ng) {
+				runtime.Gosched() // yield-spin: never monopolise a P (GOMAXPROCS may be < ng, the machine may be loaded)
+			}
 			for k := 0; k < perG; k++ {
 				op := mix[r.Intn(len(mix))]
-				if op == "Clear" && r.Intn(4) != 0 {
+				if focus != nil && r.Intn(10) < 7 {
+					op = focus.A
+					if g%2 == 0 {
+						op = focus.B
+					}
+				}
+				if op == "Clear" && focus == nil && r.Intn(4) != 0 {
 					op = "Store"
 				}
 				w.recorded(h, g, op, r, &known, &objs, &omu)
-				if yield && r.Intn(2) == 0 {
+				if yield && r.Intn(4) == 0 {
 					runtime.Gosched()
 				}
 			}
 		}(g)
 	}
-	close(start)
 	wg.Wait()
 	// quiescence: every lookup path for every id, the size and a dump
 	r := rand.New(rand.NewSource(seed))
